@@ -59,7 +59,7 @@ theorem step_passive (ctx : Ctx) (fns : List Fn) (st : St) (i : Nat) (op : Op) (
       · rfl
       · rfl
     · rfl
-  | visualize s e => simp only [step]; split <;> rfl
+  | visualize s e => cases e <;> (simp only [step]; split <;> rfl)
   | string s => simp only [step]; split <;> rfl
 
 end Dig
